@@ -45,8 +45,12 @@ inductive WireVal where
 /-- key = (tag << 3) | wire_type -/
 def encodeKey (tag wt : Nat) : Bytes := encodeVarint (tag * 8 + wt)
 
-/-- Skip the body of an unknown group (wire type 3) up to its matching end-group key.
-`depth` is prost's recursion limit. Returns the rest after the end-group key. -/
+/-- Skip the body of an unknown group (wire type 3) up to its matching end-group key:
+prost's `skip_field` loop for `StartGroup`.  `depth` is what is left of prost's recursion limit
+(`DecodeContext::recurse_count`) for the group itself; every inner field - of any wire type - is
+skipped by a recursive `skip_field` call with `ctx.enter_recursion()`, which begins with
+`ctx.limit_reached()?`: an inner field of a group whose count is 1 is refused, not only an inner
+group.  Returns the rest after the end-group key. -/
 def skipGroup : Nat → Nat → Nat → Bytes → Option Bytes
   | 0, _, _, _ => none
   | _, 0, _, _ => none
@@ -59,14 +63,17 @@ def skipGroup : Nat → Nat → Nat → Bytes → Option Bytes
       let wt := key % 8
       if tag = 0 then none else
       match wt with
-      | 0 => (decodeVarint rest).bind fun (_, r) => skipGroup fuel (depth + 1) gtag r
-      | 1 => if rest.length < 8 then none else skipGroup fuel (depth + 1) gtag (rest.drop 8)
-      | 2 =>
+      | 0 => if depth = 0 then none else
+        (decodeVarint rest).bind fun (_, r) => skipGroup fuel (depth + 1) gtag r
+      | 1 => if depth = 0 then none else
+        if rest.length < 8 then none else skipGroup fuel (depth + 1) gtag (rest.drop 8)
+      | 2 => if depth = 0 then none else
         (decodeVarint rest).bind fun (n, r) =>
           if r.length < n then none else skipGroup fuel (depth + 1) gtag (r.drop n)
       | 3 => (skipGroup fuel depth tag rest).bind fun r => skipGroup fuel (depth + 1) gtag r
       | 4 => if tag = gtag then some rest else none
-      | 5 => if rest.length < 4 then none else skipGroup fuel (depth + 1) gtag (rest.drop 4)
+      | 5 => if depth = 0 then none else
+        if rest.length < 4 then none else skipGroup fuel (depth + 1) gtag (rest.drop 4)
       | _ => none
 
 /-- One field of a message: the key and its value; `none` on any malformation prost rejects
